@@ -16,6 +16,7 @@ structure Sim (a : Cid) (g s : G) : Prop where
   solo : ∀ b, (s.heap b).owner = none ∨ (s.heap b).owner = some a
   mem  : ∀ b, (g.heap b).owner = some a →
            (g.heap b).dirty = (s.heap b).dirty ∧ ((g.heap b).dirty = false → (g.heap b).data = (s.heap b).data)
+  len  : ∀ b, (g.heap b).owner = some a → (g.heap b).data.length = (s.heap b).data.length
   wire : g.wire a = s.wire a
 
 theorem sim_init (a : Cid) : Sim a init init := by
@@ -51,6 +52,9 @@ theorem sim_own {a : Cid} {g s : G} (h : Sim a g s) (op : Op) (hf : fault g a op
           simp only [decide_eq_false_iff_not, Nat.not_lt, Nat.le_zero_eq] at hd; exact hd
         subst hn; simp [resize]
       · exact h.mem i
+    · intro i; simp only [apply, set_heap]; split
+      · intro _; simp [resize]
+      · exact h.len i
     · simpa [apply] using h.wire
   | reset b =>
     simp only [fault] at hf ⊢
@@ -70,6 +74,43 @@ theorem sim_own {a : Cid} {g s : G} (h : Sim a g s) (op : Op) (hf : fault g a op
     · intro i; simp only [apply, set_heap]; split
       · intro _; exact ⟨rfl, fun _ => rfl⟩
       · exact h.mem i
+    · intro i; simp only [apply, set_heap]; split
+      · intro _; rfl
+      · exact h.len i
+    · simpa [apply] using h.wire
+  | fill b d =>
+    simp only [fault] at hf ⊢
+    have hg : (g.heap b).owner = some a := by
+      by_cases hh : (g.heap b).owner = some a
+      · exact hh
+      · simp [hh] at hf
+    have hs := (h.own b).mp hg
+    obtain ⟨hd, hdat⟩ := h.mem b hg
+    have hlen := h.len b hg
+    refine ⟨by simp [hs], ?_⟩
+    constructor
+    · intro i; simp only [apply, set_heap]; split
+      · rename_i hi; subst hi; simp [hg, hs]
+      · exact h.own i
+    · intro i; simp only [apply, set_heap]; split
+      · rename_i hi; subst hi; right; exact hs
+      · exact h.solo i
+    · intro i; simp only [apply, set_heap]; split
+      · rename_i hi; subst hi
+        intro _
+        refine ⟨by simp only [hd, hlen], ?_⟩
+        intro hdd
+        simp only [Bool.and_eq_false_iff, decide_eq_false_iff_not, Nat.not_lt] at hdd
+        rcases hdd with hdd | hdd
+        · rw [hdat hdd]
+        · -- the whole old content is overwritten
+          rw [List.drop_of_length_le hdd, List.drop_of_length_le (by rw [← hlen]; exact hdd)]
+      · exact h.mem i
+    · intro i; simp only [apply, set_heap]; split
+      · rename_i hi; subst hi
+        intro _
+        simp only [List.length_append, List.length_drop, hlen]
+      · exact h.len i
     · simpa [apply] using h.wire
   | append b d =>
     simp only [fault] at hf ⊢
@@ -93,6 +134,10 @@ theorem sim_own {a : Cid} {g s : G} (h : Sim a g s) (op : Op) (hf : fault g a op
         refine ⟨hd, ?_⟩
         intro hdd; simp only at hdd; rw [hdat hdd]
       · exact h.mem i
+    · intro i; simp only [apply, set_heap]; split
+      · rename_i hi; subst hi
+        intro _; simp only [List.length_append, h.len i hg]
+      · exact h.len i
     · simpa [apply] using h.wire
   | send b =>
     simp only [fault] at hf ⊢
@@ -111,6 +156,7 @@ theorem sim_own {a : Cid} {g s : G} (h : Sim a g s) (op : Op) (hf : fault g a op
     · intro i; simpa [apply] using h.own i
     · intro i; simpa [apply] using h.solo i
     · intro i; simpa [apply] using h.mem i
+    · intro i; simpa [apply] using h.len i
     · simp [apply, h.wire, hdat hdirty]
   | sendLit d =>
     refine ⟨rfl, ?_⟩
@@ -118,6 +164,7 @@ theorem sim_own {a : Cid} {g s : G} (h : Sim a g s) (op : Op) (hf : fault g a op
     · intro i; simpa [apply] using h.own i
     · intro i; simpa [apply] using h.solo i
     · intro i; simpa [apply] using h.mem i
+    · intro i; simpa [apply] using h.len i
     · simp [apply, h.wire]
   | free b =>
     simp only [fault] at hf ⊢
@@ -137,6 +184,9 @@ theorem sim_own {a : Cid} {g s : G} (h : Sim a g s) (op : Op) (hf : fault g a op
     · intro i; simp only [apply, set_heap]; split
       · intro hh; cases hh
       · exact h.mem i
+    · intro i; simp only [apply, set_heap]; split
+      · intro hh; cases hh
+      · exact h.len i
     · simpa [apply] using h.wire
 
 /-- a (non-faulting) operation of another connection is invisible to `a` -/
@@ -162,6 +212,9 @@ theorem sim_other {a c : Cid} {g s : G} (h : Sim a g s) (hca : c ≠ a) (op : Op
     · intro i; simp only [set_heap]; split
       · intro hh; exact absurd hh hx
       · exact h.mem i
+    · intro i; simp only [set_heap]; split
+      · intro hh; exact absurd hh hx
+      · exact h.len i
     · simpa using h.wire
   cases op with
   | malloc b n =>
@@ -172,6 +225,13 @@ theorem sim_other {a c : Cid} {g s : G} (h : Sim a g s) (hca : c ≠ a) (op : Op
       · simp [hh] at hf
     exact touched b (Or.inl hg) _ hne
   | reset b =>
+    simp only [fault] at hf
+    have hg : (g.heap b).owner = some c := by
+      by_cases hh : (g.heap b).owner = some c
+      · exact hh
+      · simp [hh] at hf
+    exact touched b (Or.inr hg) _ (by simpa [hg] using hne)
+  | fill b d =>
     simp only [fault] at hf
     have hg : (g.heap b).owner = some c := by
       by_cases hh : (g.heap b).owner = some c
@@ -190,12 +250,14 @@ theorem sim_other {a c : Cid} {g s : G} (h : Sim a g s) (hca : c ≠ a) (op : Op
     · intro i; simpa [apply] using h.own i
     · exact h.solo
     · intro i; simpa [apply] using h.mem i
+    · intro i; simpa [apply] using h.len i
     · simp [apply, Ne.symm hca, h.wire]
   | sendLit d =>
     constructor
     · intro i; simpa [apply] using h.own i
     · exact h.solo
     · intro i; simpa [apply] using h.mem i
+    · intro i; simpa [apply] using h.len i
     · simp [apply, Ne.symm hca, h.wire]
   | free b =>
     simp only [fault] at hf
